@@ -56,6 +56,7 @@ deriving DecidableEq, Repr
 
 inductive Layer where
   | ipv6ExtHeader | ipv6FragHeader | ipAuthHeader
+  | ipv6HopByHopHeader | ipv6DestOptionsHeader | ipv6RouteHeader
 deriving DecidableEq, Repr
 
 inductive LenSource where
@@ -605,5 +606,95 @@ def Exts.fromSlice (startIpNumber : Nat) (slice : Bytes) : Except (Fault SliceEr
       | .ok header =>
         fromSliceLoop slice { Exts.empty with hopByHopOptions := some header } (slice.drop len) header.nextHeader
   else fromSliceLoop slice Exts.empty slice startIpNumber
+
+/-! ### `from_slice_lax` (a second copy of the `from_slice` loop that returns what was decoded
+    together with the error) -/
+
+abbrev LaxResult := Exts × Nat × Bytes × Option (SliceErr × Layer)
+
+/-- `Some((Len(err.add_offset(slice.len() - rest.len())), layer))` -/
+def laxLenErr (slice : Bytes) (result : Exts) (next : Nat) (rest : Bytes) (err : LenError) (layer : Layer) :
+    Except (Fault SliceErr) LaxResult :=
+  match lenErrAt slice rest err with
+  | .panic => .error .panic
+  | .err e => .ok (result, next, rest, some (e, layer))
+
+/-- the `loop` of `Ipv6Extensions::from_slice_lax`. -/
+def fromSliceLaxLoop (slice : Bytes) (result : Exts) (rest : Bytes) :
+    Nat → Except (Fault SliceErr) LaxResult
+  | 0 => .ok (result, 0, rest, some (.content .hopByHopNotAtStart, .ipv6HopByHopHeader))
+  | 60 =>
+    match hr : result.routing with
+    | some routing =>
+      match hf : routing.finalDestinationOptions with
+      | some _ => .ok (result, 60, rest, none)
+      | none =>
+        match rawSliceLen rest with
+        | .error err => laxLenErr slice result 60 rest err .ipv6DestOptionsHeader
+        | .ok len =>
+          match rawToHeader rest len with
+          | .error f => .error f
+          | .ok header =>
+            fromSliceLaxLoop slice { result with routing := some { routing with finalDestinationOptions := some header } }
+              (rest.drop len) header.nextHeader
+    | none =>
+      match hd : result.destinationOptions with
+      | some _ => .ok (result, 60, rest, none)
+      | none =>
+        match rawSliceLen rest with
+        | .error err => laxLenErr slice result 60 rest err .ipv6DestOptionsHeader
+        | .ok len =>
+          match rawToHeader rest len with
+          | .error f => .error f
+          | .ok header =>
+            fromSliceLaxLoop slice { result with destinationOptions := some header } (rest.drop len) header.nextHeader
+  | 43 =>
+    match hr : result.routing with
+    | some _ => .ok (result, 43, rest, none)
+    | none =>
+      match rawSliceLen rest with
+      | .error err => laxLenErr slice result 43 rest err .ipv6RouteHeader
+      | .ok len =>
+        match rawToHeader rest len with
+        | .error f => .error f
+        | .ok header =>
+          fromSliceLaxLoop slice { result with routing := some { routing := header, finalDestinationOptions := none } }
+            (rest.drop len) header.nextHeader
+  | 44 =>
+    match hfr : result.fragment with
+    | some _ => .ok (result, 44, rest, none)
+    | none =>
+      match fragFromSlice rest with
+      | .error err => laxLenErr slice result 44 rest err .ipv6FragHeader
+      | .ok header =>
+        fromSliceLaxLoop slice { result with fragment := some header } (rest.drop 8) header.nextHeader
+  | 51 =>
+    match ha : result.auth with
+    | some _ => .ok (result, 51, rest, none)
+    | none =>
+      match authSliceLen rest with
+      | .error (.len err) => laxLenErr slice result 51 rest err .ipAuthHeader
+      | .error (.content err) => .ok (result, 51, rest, some (.content (.ipAuth err), .ipAuthHeader))
+      | .ok len =>
+        match authToHeader rest len with
+        | .error f => .error f
+        | .ok header =>
+          fromSliceLaxLoop slice { result with auth := some header } (rest.drop len) header.nextHeader
+  | n => .ok (result, n, rest, none)
+termination_by result.freeSlots
+decreasing_by
+  all_goals simp [Exts.freeSlots, *]
+
+/-- `Ipv6Extensions::from_slice_lax` -/
+def Exts.fromSliceLax (startIpNumber : Nat) (slice : Bytes) : Except (Fault SliceErr) LaxResult :=
+  if IPV6_HOP_BY_HOP = startIpNumber then
+    match rawSliceLen slice with
+    | .error err => .ok (Exts.empty, startIpNumber, slice, some (.len err, .ipv6HopByHopHeader))
+    | .ok len =>
+      match rawToHeader slice len with
+      | .error f => .error f
+      | .ok header =>
+        fromSliceLaxLoop slice { Exts.empty with hopByHopOptions := some header } (slice.drop len) header.nextHeader
+  else fromSliceLaxLoop slice Exts.empty slice startIpNumber
 
 end EpModel.Ext
